@@ -95,6 +95,31 @@ func vC12Faults(maxPending int) {
 	vReach("c12.faults")
 }
 
+// A call whose context has already ended (so that its request cannot even be
+// written) returns promptly and does not disturb the session: later calls work.
+func VerifC12_DeadCall() {
+	ch := newVPeerChannel()
+	ctx, cancel := context.WithCancel(vBG)
+	defer cancel()
+	t := newTransport(ctx, ch)
+	n := 1 + ndChoice("ndead", 2)
+	for i := 0; i < n; i++ {
+		cctx, ccancel := context.WithCancel(vBG)
+		ccancel()
+		_, err := t.send(cctx, MessageTclunk{Fid: Fid(i)})
+		vAssert(err != nil, "C12: a call whose own context has ended returns an error promptly")
+	}
+	doneCh := make(chan error, 1)
+	go func() {
+		_, err := t.send(vBG, MessageTclunk{Fid: 9})
+		doneCh <- err
+	}()
+	req := <-ch.toPeer // a session wedged by the dead calls is reported as a deadlock
+	ch.fromPeer <- &Fcall{Type: Rclunk, Tag: req.Tag, Message: MessageRclunk{}}
+	vAssert(<-doneCh == nil, "C12: a call whose own context ends does not disturb other calls")
+	vReach("c12.deadcall")
+}
+
 func VerifC12_FaultsQuick()    { vC12Faults(1) }
 func VerifC12_FaultsThorough() { vC12Faults(2) }
 
